@@ -57,6 +57,25 @@ def run(tier, seed):
                 except Exception as e:
                     chk.violation(dict(sel, check='pipeline_raises', error=type(e).__name__), 'split pipeline raised %s: %s' % (type(e).__name__, e), dict(cfg=cfg))
                     continue
+                # options given to the split problem must reach every interval problem: the relaxed solve (make_soft_problem) returns the sum of the
+                # relaxed interval optima (judged where booleans exist: order books with full execution)
+                if any(a['kind'] == 'orderbook' and a['fullexec'] for a in cfg['assets']):
+                    chk.cnt['eval_split_relaxed'] += 1
+                    try:
+                        with R.quiet():
+                            rsoft = ops.optimize(solver='SCIPY', make_soft_problem=True)
+                        rel = []
+                        for o in ops.ops:
+                            pr_ = Problem(o)
+                            pr_.integrality = pr_.integrality * 0
+                            rel.append(pr_.solve()[1])
+                        if isinstance(rsoft, str) or any(v is None for v in rel):
+                            chk.cnt['split_relaxed_infeasible'] += 1
+                        elif abs(float(rsoft.value) - sum(rel)) > 1e-6 * max(1, abs(sum(rel))):
+                            chk.violation(dict(sel, check='split_relaxed_value_sum'), 'relaxed split value %.9g is not the sum of the relaxed interval optima %.9g' % (float(rsoft.value), sum(rel)),
+                                          dict(cfg=cfg))
+                    except Exception as e:
+                        chk.violation(dict(sel, check='pipeline_raises', error=type(e).__name__, option='make_soft_problem'), 'relaxed split solve raised %s: %s' % (type(e).__name__, e), dict(cfg=cfg))
                 if isinstance(res, str) or any(p is None for p in parts) or vu is None:
                     chk.cnt['split_infeasible'] += 1
                     continue
